@@ -49,10 +49,25 @@ def fam_life(seed, i):
     w = {"send": 4, "call": 4, "ping": 1, "yield": 3, "clone": 2, "drop": 3, "stop": 2, "halt": 1, "try_stop": 1, "try_halt": 1,
          "await": 1.5, "await_ref": 1, "stopped": 2, "running": 1.5, "downgrade": 2, "upgrade": 2.5, "sender": 1, "caller": 1,
          "weak_sender": 1, "weak_caller": 1, "to_addr": 1, "detach": 0.7, "join": 1.5, "consume": 0.7, "consume_sync": 0.7}
-    scripts = [[], [Y], [eff("ctx_stop")], [Y, eff("ctx_stop")], []]
+    base_scripts = [[], [Y], [eff("ctx_stop")], [Y, eff("ctx_stop")], []]
+    w["claim"] = 2
     cnt = [0]
+    wn = [0]
     for c in names:
-        sc["clients"][c] = Prog(rng, c, handles.get(c, {}), w, scripts, cnt).run(rng.randint(1, 8))
+        p = Prog(rng, c, handles.get(c, {}), w, None, cnt)
+
+        def scripts(p=p):
+            if rng.random() < 0.15:
+                # the handler hands out a weak handle to itself; the client picks it up later (`claim`)
+                wn[0] += 1
+                kind = rng.choice(["ctx_weak_address", "ctx_weak_sender", "ctx_weak_caller"])
+                name = f"w{wn[0]}"
+                p.claimable.append((name, {"ctx_weak_address": "waddr", "ctx_weak_sender": "wsender", "ctx_weak_caller": "wcaller"}[kind]))
+                return [eff(kind, 0, name)] + [Y] * rng.choice([0, 1])
+            return rng.choice(base_scripts)
+
+        p.scripts = scripts
+        sc["clients"][c] = p.run(rng.randint(1, 8))
     return sc
 
 
@@ -386,7 +401,7 @@ def fam_broker(seed, i):
             handles[c][f"h_{a}_{c}"] = {"clone": "addr", "caller": "caller", "sender": "sender"}[kind]
         main.append({"op": "drop", "h": f"r_{a}"})
     sc["clients"]["main"] = main
-    w = {"publish": 6, "broker": 1.5, "bpublish": 4, "bsubscribe": 1.5, "bunsubscribe": 1.5, "send": 4, "call": 1, "yield": 3, "drop": 1.5, "stop": 1, "stopped": 0.3, "await": 0.3}
+    w = {"publish": 6, "try_publish": 1.5, "broker": 1.5, "bpublish": 4, "bsubscribe": 1.5, "bunsubscribe": 1.5, "send": 4, "call": 1, "yield": 3, "drop": 1.5, "stop": 1, "stopped": 0.3, "await": 0.3}
     cnt = [0]
     for c in cl:
         def scripts():
